@@ -309,3 +309,14 @@ package vm
 //@ func getDataBig
 //@   requires start != nil && size != nil && big(start) >= 0 && big(size) >= 0 && big(size) < 1099511627776
 //@   ensures[C08] @beyond old(big(start)) >= U(uint64(len(data))) ==> (forall k int :: 0 <= k && k < len(result) ==> result[k] == 0)
+
+// ---- memory expansion gas (C08: quadratic memory cost) ----------------------------------------------
+// When memory grows to w 32-byte words, w is at most 2^32-1 and the recorded total fee is
+// 3*w + w*w/512 in 64-bit arithmetic; by lemma memfee_nowrap (specs/evm.smt2) that is the
+// mathematical quantity 3w + floor(w^2/512) of the Yellow Paper (no wrap-around).
+//@ func memoryGasCost
+//@   requires mem != nil
+//@   ensures[C08] @nowrap err == nil && newMemSize != 0 ==> (newMemSize + 31) / 32 <= 4294967295
+//@   ensures[C08] @quadratic64 err == nil && newMemSize != 0 && ((newMemSize + 31) / 32) * 32 > uint64(old(len(mem.store)))
+//@     ==> mem.lastGasCost == ((newMemSize + 31) / 32) * 3 + (((newMemSize + 31) / 32) * ((newMemSize + 31) / 32)) / 512
+//@   nopanic[C07,C08]
